@@ -408,6 +408,15 @@ func (m *IntegerPreAgg) addSum(v float64) { m.values[sumIndex] += int64(v) }
 func (m *IntegerPreAgg) addCount(n int64) { m.values[countIndex] += n }
 
 func (m *IntegerPreAgg) merge(other *IntegerPreAgg) {
+	// an empty aggregate holds only the initial sentinels (MaxInt64/MinInt64 at time 0): they must not
+	// take part in the comparison, or a real extreme value loses its time
+	if other.values[countIndex] == 0 {
+		return
+	}
+	if m.values[countIndex] == 0 {
+		copy(m.values, other.values)
+		return
+	}
 	m.addMinInt(other.values[minIndex], other.values[minTIndex])
 	m.addMaxInt(other.values[maxIndex], other.values[maxTIndex])
 	m.values[sumIndex] += other.values[sumIndex]
@@ -626,6 +635,14 @@ func (m *FloatPreAgg) addSum(v float64) { m.sumV += v }
 func (m *FloatPreAgg) addCount(n int64) { m.countV += n }
 
 func (m *FloatPreAgg) merge(other *FloatPreAgg) {
+	// see IntegerPreAgg.merge: the sentinels of an empty aggregate are not values
+	if other.countV == 0 {
+		return
+	}
+	if m.countV == 0 {
+		*m = *other
+		return
+	}
 	m.addMin(other.minV, other.minTime)
 	m.addMax(other.maxV, other.maxTime)
 	m.addSum(other.sumV)
